@@ -2,18 +2,33 @@ A = 'babylon::AsyncFileAppender'
 IOV = 'std::vector<iovec>'
 PV = 'std::vector<void*>'
 DV = 'std::vector<babylon::AsyncFileAppender::Destination>'
+import re
+def _std_hook(fe, rd, name, args, e):
+    # std::get<I>(tuple<int,int>&): member access on the two-int struct the group declares for the tuple
+    if name == 'get' and len(args) == 1:
+        m = re.search(r'tuple_element(?:_t)?<(\d+)', rd.get('type', {}).get('qualType', ''))
+        if m:
+            return '(%s.e%s)' % (fe.expr(args[0]), m.group(1))
+    return None
 GROUP = dict(
+    std_call_hook=_std_hook,
+    extra_structs={'std::tuple<int,int>': 'struct @ { int e1; int e0; };'},
+    trivial_copy=['std::tuple<int,int>'],
     prop='C20',
     driver='driver.cpp',
     spec='spec.h',
     aliases=[(IOV, 'IovVec'), (PV, 'PtrVec'), ('babylon::', '')],
-    outside_methods={IOV: ['begin', 'end', 'clear', 'empty', 'data', 'size'], PV: ['emplace_back', 'push_back', 'data', 'size', 'clear']},
+    outside_methods={IOV: ['begin', 'end', 'clear', 'empty', 'data', 'size'], PV: ['emplace_back', 'push_back', 'data', 'size', 'clear'], DV: ['operator[]', 'size', 'emplace_back', 'back', 'begin', 'end']},
     opaque_by_value=[IOV, PV, 'std::thread', DV],
-    outside_funcs={'writev': 'vf_writev'},
-    roots=[A + '::write_use_plain_writev'],
+    outside_funcs={'writev': 'vf_writev', 'close': 'vf_close', 'usleep': 'vf_usleep'},
+    extern_re=[r'ConcurrentBoundedQueue<.*>::', r'LogEntry::append_to_iovec', r'FileObject::'],
+    roots=[A + '::write_use_plain_writev', A + '::discard', A + '::destination', {'lambda_in': A + '::keep_writing', 'ordinal': 1}, A + '::keep_writing'],
     reviewed_compiler_conditionals=[],
     assumptions=[],
     jobs=[
-        dict(id='C20.appender.writev', enforce='AsyncFileAppender_write_use_plain_writev', loops=True, backend='cadical', refute_unwind=1030),
+        dict(id='C20.appender.discard', enforce='AsyncFileAppender_discard', loops=True, backend='cadical', covers=['g_in > 2000 && g_f < g_in && g_f > 1000']),
+        dict(id='C20.appender.destination', enforce='AsyncFileAppender_destination', backend='cadical', covers=['g_fidx == (size_t)-1 && g_dsz > 5', 'g_fidx != (size_t)-1 && g_fidx > 3']),
+        dict(id='C20.appender.pop', enforce='AsyncFileAppender_keep_writing_lambda_async_file_appender_keep_writing_1_op_call', replace=['AsyncFileAppender_destination'], loops=True, backend='cadical', defines=['VF_POP_LAMBDA 1'], covers=['g_qn > 1000 && g_stop_at < g_qn && g_stop_at > 500', 'g_qn > 1000 && g_stop_at >= g_qn']),
+        dict(id='C20.appender.writev', enforce='AsyncFileAppender_write_use_plain_writev', loops=True, backend='cadical', refute_unwind=1030, covers=['g_in > 3000 && g_f < g_in && g_f > 2000']),
     ],
 )
